@@ -140,6 +140,30 @@ Proof.
   - rewrite map_map. apply map_ext. intros [p l]. cbn. rewrite map_map. reflexivity.
 Qed.
 
+(* ---- time limits ------------------------------------------------------------------------------------- *)
+Lemma same_limits_eq a b : same_limits a b = true -> a = b.
+Proof.
+  destruct a as [a1 a2], b as [b1 b2]. unfold same_limits; cbn. intro H.
+  apply andb_true_iff in H. destruct H as [H1 H2]. apply Z.eqb_eq in H1, H2. subst. reflexivity.
+Qed.
+
+(* a checked limits case: every child-side executor gives every test case the parent's budget *)
+Lemma budget_agree c : check_lcase c = true ->
+  forall ch size, In ch (l_child c) ->
+  budget (fst ch) (snd ch) size = budget (fst (l_parent c)) (snd (l_parent c)) size.
+Proof.
+  unfold check_lcase. intro H. apply andb_true_iff in H. destruct H as [H _].
+  intros ch size I. rewrite forallb_forall in H. rewrite (same_limits_eq _ _ (H ch I)). reflexivity.
+Qed.
+
+(* the budget never exceeds either limit's contribution, and grows with the size *)
+Lemma budget_bounds mx per size : budget mx per size <= mx /\ budget mx per size <= per * size.
+Proof. unfold budget. lia. Qed.
+
+(* why the order matters: with the two limits swapped a 6-statement test gets 5 s instead of 30 s *)
+Example swapped_limits_differ : budget 60 5 6 = 30 /\ budget 5 60 6 = 5.
+Proof. split; reflexivity. Qed.
+
 (* ---- non-vacuity ---------------------------------------------------------------------------------- *)
 Example crash_pattern :
   execute_multiple (fun t : list (Z * bool) => t) (fun it => snd it)
